@@ -62,7 +62,9 @@ def r_shift(ctx, which=('obtain_latters', 'obtain_formers'), with_latter=False):
         f = ctx.p.func('dsw.graphized.' + name)
         got = appended_terms(ctx, f)
         if not got or not got[1]:
-            raise AnalysisError("rule R-SHIFT lost its anchor: %s does not build its result by appending in a loop" % name)
+            if check_list_form(ctx, f, name, c, K, 'succ' if name == 'obtain_latters' else 'pred'):
+                continue
+            raise AnalysisError("rule R-SHIFT lost its anchor: %s neither appends in a loop nor returns an evaluable list" % name)
         lst, apps = got
         if len(apps) != 1:
             raise AnalysisError("rule R-SHIFT: %s appends at %d sites" % (name, len(apps)))
@@ -93,6 +95,59 @@ def r_shift(ctx, which=('obtain_latters', 'obtain_formers'), with_latter=False):
             check_latter(ctx, f, t, Kt, f.nodes[d.node].lineno)
         if not found:
             raise AnalysisError("rule R-SHIFT lost its anchor: removed-arc target in remove_nasty_arc")
+
+
+def check_list_form(ctx, f, name, c, K, kind):
+    """the function returns a whole list expression (list(range(..)), a comprehension over range(4)): evaluate it"""
+    run = ctx.run
+    rets = [nd for nd in f.stmts(ast.Return) if nd.stmt.value is not None]
+    if len(rets) != 1:
+        return False
+    t = f.term(rets[0].stmt.value, rets[0])
+    line = rets[0].lineno
+
+    def ev(cv, k):
+        env = {c: cv, K: k}
+        if t[0] == 'comp' and t[1] == 'list' and len(t[3]) == 1 and not t[3][0][1]:
+            it = feval(t[3][0][0], lambda x: env[x] if x in env else UNKNOWN)
+            if it is UNKNOWN:
+                return UNKNOWN
+            out = []
+            bound = [x for x in walk_term(t[2]) if x[0] == 'iter' and x[1] == t[3][0][0]]
+            for jv in it:
+                e2 = dict(env)
+                for b in bound:
+                    e2[b] = jv
+                v = feval(t[2], lambda x: e2[x] if x in e2 else UNKNOWN)
+                if v is UNKNOWN:
+                    return UNKNOWN
+                out.append(v)
+            return out
+        return feval(t, lambda x: env[x] if x in env else UNKNOWN)
+    witness, n = None, 0
+    for k in range(1, 5):
+        for cv in range(4 ** k):
+            n += 1
+            got = ev(cv, k)
+            if got is UNKNOWN:
+                return False
+            want = [reference(kind, cv, jv, k) for jv in range(4)]
+            if list(got) != want:
+                witness = (cv, k, got, want)
+                break
+        if witness:
+            break
+    run.count('cases', n)
+    if witness:
+        cv, k, got, want = witness
+        run.refute('R-SHIFT', f, 'closed-form', line,
+                   "%s(%d, %d) evaluates to %s; the shift-%s list is %s (term %s)"
+                   % (name, cv, k, got, 'append' if kind == 'succ' else 'prepend', want, show(t)[:100]),
+                   extracted=show(t)[:160], inputs='vertex %d at k=%d' % (cv, k))
+    else:
+        run.ok('R-SHIFT', f, 'closed-form', line, 'list expression equals the closed form for all vertices, k <= 4 (bounded)',
+               extracted=show(t)[:160])
+    return True
 
 
 def reference(kind, c, j, k):
